@@ -42,11 +42,24 @@ class Clock:
         return from_us(self.now_us)
 
 
+ZONE_OFFSET = _dt.timedelta(hours=9)   # the simulated process lives in a zone 9 hours east of UTC (like TZ=JST-9)
+
+
 def install_clock(idm_mod, clock):
+    """The fake clock is a LOCAL clock in a zone that is not UTC: now() is the local wall time the model is given;
+    now(tz) / utcnow() answer what a real clock in that zone would (the same instant seen from tz / from UTC), so that code
+    which mixes local and UTC time stamps shows."""
     class FakeDT(_dt.datetime):
         @classmethod
         def now(cls, tz=None):
-            return clock.now()
+            local = clock.now()
+            if tz is None:
+                return local
+            return (local - ZONE_OFFSET).replace(tzinfo=_dt.timezone.utc).astimezone(tz)
+
+        @classmethod
+        def utcnow(cls):
+            return clock.now() - ZONE_OFFSET
 
     idm_mod.datetime = FakeDT
     return FakeDT
